@@ -8,6 +8,8 @@ pub enum J {
     S(String),
     A(Vec<J>),
     O(Vec<(&'static str, J)>),
+    /// pre-serialised JSON
+    Raw(String),
 }
 
 impl J {
@@ -30,6 +32,7 @@ impl J {
             J::B(b) => out.push_str(if *b { "true" } else { "false" }),
             J::N(n) => out.push_str(&n.to_string()),
             J::S(s) => write_str(s, out),
+            J::Raw(s) => out.push_str(s),
             J::A(v) => {
                 out.push('[');
                 for (i, x) in v.iter().enumerate() {
